@@ -38,6 +38,7 @@ type config struct {
 	reverseSort     bool
 	faults          bool
 	namedAttrs      bool
+	fuseFront       bool
 }
 
 // env is the part of the world shared by both properties: configuration,
@@ -114,6 +115,13 @@ func newEnv(r *simrun.Run, prop string, sequential bool) *env {
 	if prop == "C14" {
 		e.cfg.namedAttrs = t.Bool(1, 3)
 	}
+	if prop == "C13" && sequential {
+		// One sequential run in three goes through the FUSE front end,
+		// which comes with the FUSE handle allocator.
+		if e.cfg.fuseFront = t.Bool(1, 3); e.cfg.fuseFront {
+			e.cfg.nfs = false
+		}
+	}
 	e.avoidKnown = strings.Contains(os.Getenv("W7_AVOID"), "createenter-deleted")
 
 	e.clock = simenv.NewSimClock(e.k, startTime)
@@ -155,7 +163,7 @@ func newEnv(r *simrun.Run, prop string, sequential bool) *env {
 		e.roots = append(e.roots, virtual.NewInMemoryPrepopulatedDirectory(
 			e.files, &faultySymlinkFactory{e: e, base: e.symlinks}, e.logger, e.handles, sorter, matcher, e.clock, normalizer, noDefaultAttributes, naf))
 	}
-	r.Logf("config: caseInsensitive=%v hiddenPattern=%v handles=%s reverseSort=%v faults=%v namedAttrs=%v", e.cfg.caseInsensitive, e.cfg.hidden, map[bool]string{true: "nfs", false: "fuse"}[e.cfg.nfs], e.cfg.reverseSort, e.cfg.faults, e.cfg.namedAttrs)
+	r.Logf("config: caseInsensitive=%v hiddenPattern=%v handles=%s reverseSort=%v faults=%v namedAttrs=%v fuseFrontEnd=%v", e.cfg.caseInsensitive, e.cfg.hidden, map[bool]string{true: "nfs", false: "fuse"}[e.cfg.nfs], e.cfg.reverseSort, e.cfg.faults, e.cfg.namedAttrs, e.cfg.fuseFront)
 	return e
 }
 
